@@ -18,7 +18,7 @@ P(c) == PrintT(<<"CASE", ToJson(c)>>)
 \* ---- shape classes
 ShapeOfTy(ty) == CASE ty = "M" -> <<2, 3>> [] ty = "Mt" -> <<3, 2>> [] ty = "M4" -> <<4, 3>> [] ty = "F" -> <<1, 6>>
                    [] ty = "X3" -> <<2, 1, 3>> [] ty = "Y4" -> <<2, 1, 1, 3>> [] ty = "H3" -> <<1, 1, 3>>
-                   [] ty = "X1" -> <<1, 2, 3>> [] ty = "Y1" -> <<1, 1, 2, 3>> [] ty = "H1" -> <<1, 2, 3>>     \* one time step, batch 2
+                   [] ty = "S" -> <<>> [] ty = "X1" -> <<1, 2, 3>> [] ty = "Y1" -> <<1, 1, 2, 3>> [] ty = "H1" -> <<1, 2, 3>>     \* one time step, batch 2
 
 \* ---- initializers (weights); "d" is also declared as a graph input
 W33 == T("f32", <<3, 3>>, <<1, -1, 2, 0, 1, -2, 3, 1, 0>>)
@@ -37,13 +37,14 @@ RB(G, salt) == T("f32", <<1, 2 * G * 3>>, [n \in 1..(2 * G * 3) |-> ((n * 2 + sa
 Inits == [w33 |-> W33, c3 |-> C3, shp |-> Shp, ax1 |-> Ax1, ax12 |-> Ax12, ax0 |-> Ax0, ax01 |-> Ax01, st1 |-> St1, en3 |-> En3, d |-> Dd,
           gw |-> RW(3, 3, 0), gr |-> RW(3, 3, 1), gb |-> RB(3, 2),
           lw |-> RW(4, 3, 2), lr |-> RW(4, 3, 0), lb |-> RB(4, 1),
-          rw |-> RW(1, 3, 1), rr |-> RW(1, 3, 2)]
+          rw |-> RW(1, 3, 1), rr |-> RW(1, 3, 2), ks |-> T("f32", <<>>, <<5>>)]
 
 \* ---- templates: [op, attrs, ins (type names for scope-bound inputs, "=name" for fixed initializers, "" for a skipped input), outs (types, "" = skipped)]
 Tpl(op, attrs, ins, outs) == [op |-> op, attrs |-> attrs, ins |-> ins, outs |-> outs]
 Templates ==
    {Tpl("Add", <<>>, <<"M", "M">>, <<"M">>), Tpl("Sub", <<>>, <<"M", "M">>, <<"M">>), Tpl("Mul", <<>>, <<"M", "M">>, <<"M">>),
     Tpl("Relu", <<>>, <<"M">>, <<"M">>), Tpl("Abs", <<>>, <<"M">>, <<"M">>),
+    Tpl("Mul", <<>>, <<"M", "S">>, <<"M">>), Tpl("Add", <<>>, <<"S", "M">>, <<"M">>),        \* a rank-0 graph input as operand
     Tpl("Gemm", <<AF("alpha", Fin(2)), AF("beta", Fin(1))>>, <<"M", "=w33", "=c3">>, <<"M">>),
     Tpl("Gemm", <<AI("transB", 1)>>, <<"M", "=w33">>, <<"M">>),
     Tpl("Gemm", <<AF("alpha", Fin(-1)), AI("transA", 1)>>, <<"Mt", "=w33", "=c3">>, <<"M">>),
@@ -71,7 +72,9 @@ Templates ==
     Tpl("RNN", <<AI("hidden_size", 3), ASs("activations", <<"relu">>)>>, <<"X1", "=rw", "=rr">>, <<"Y1", "H1">>)}
 
 \* ---- scope: sequence of [name, ty]; graph inputs a, b : M and d : M (also an initializer)
-Scope0 == <<[name |-> "a", ty |-> "M"], [name |-> "b", ty |-> "M"], [name |-> "d", ty |-> "M"]>>
+\* k : S is a rank-0 graph input without default, ks : S a rank-0 graph input that is also an initializer
+Scope0 == <<[name |-> "a", ty |-> "M"], [name |-> "b", ty |-> "M"], [name |-> "d", ty |-> "M"], [name |-> "k", ty |-> "S"], [name |-> "ks", ty |-> "S"]>>
+NIn == Len(Scope0)
 NamesOfTy(sc, ty) == {sc[i].name : i \in {j \in 1..Len(sc) : sc[j].ty = ty}}
 \* all assignments of scope names to the typed positions of a template
 FreePos(t) == {i \in 1..Len(t.ins) : t.ins[i] # "" /\ SubSeq(t.ins[i], 1, 1) # "="}
@@ -95,15 +98,18 @@ AddNode(t, w) ==
 GraphOf(p, sc) ==
    [nodes |-> p,
     inputs |-> <<[name |-> "a", dt |-> "f32", dims |-> <<DFix(2), DFix(3)>>], [name |-> "b", dt |-> "f32", dims |-> <<DSym, DFix(3)>>],
-                 [name |-> "d", dt |-> "f32", dims |-> <<DFix(2), DFix(3)>>]>>,
-    outputs |-> [i \in 1..(Len(sc) - 3) |-> sc[i + 3].name] \o <<"a", "d">>,       \* every produced tensor, a pass-through input and the defaulted input
+                 [name |-> "d", dt |-> "f32", dims |-> <<DFix(2), DFix(3)>>],
+                 [name |-> "k", dt |-> "f32", dims |-> <<>>], [name |-> "ks", dt |-> "f32", dims |-> <<>>]>>,
+    outputs |-> [i \in 1..(Len(sc) - NIn) |-> sc[i + NIn].name] \o <<"a", "d">>,       \* every produced tensor, a pass-through input and the defaulted input
     inits |-> Inits]
 InitsSeq(g) == LET names == SeqOfSet(DOMAIN g.inits) IN [k \in 1..Len(names) |-> [name |-> names[k], t |-> g.inits[names[k]]]]
 ModelJ(g) == [nodes |-> g.nodes, inputs |-> g.inputs, outputs |-> g.outputs, inits |-> InitsSeq(g), opset |-> 13]
 InA == T("f32", <<2, 3>>, <<1, -2, 3, -4, 5, -6>>)
 InB == T("f32", <<2, 3>>, <<2, 0, -1, 3, 1, -2>>)
 InD == T("f32", <<2, 3>>, <<-1, -1, 4, 0, 2, 9>>)
-CallIns == IF Supplied THEN [a |-> InA, b |-> InB, d |-> InD] ELSE [a |-> InA, b |-> InB]
+InK == T("f32", <<>>, <<3>>)
+InKs == T("f32", <<>>, <<-2>>)
+CallIns == IF Supplied THEN [a |-> InA, b |-> InB, d |-> InD, k |-> InK, ks |-> InKs] ELSE [a |-> InA, b |-> InB, k |-> InK]
 
 \* The finished program is then EXECUTED by the specification one node per transition, exactly as Run does: the environment
 \* of names is a state variable (Seal = RunBegin, ExecNode = applyOp, Emit = the output collection of Run).
